@@ -360,8 +360,8 @@ def shards(tier):
     out += [{"kind": "atheris", "runs": runs, "idx": i} for i in range(1 if tier == "quick" else 6)]
     out += [{"kind": "cli_stack", "n": 60 if tier == "quick" else 1500, "idx": i} for i in range(8)]
     # untyped programs: every token sequence over a small alphabet whose every prefix the VM accepts
-    out += [{"kind": "raw_enum", "L": 5 if tier == "quick" else 7, "part": i, "nparts": 16} for i in range(16)]
-    out += [{"kind": "raw_enum", "core": True, "L": 6 if tier == "quick" else 8, "part": i, "nparts": 16}
+    out += [{"kind": "raw_enum", "L": 5 if tier == "quick" else 6, "part": i, "nparts": 16} for i in range(16)]
+    out += [{"kind": "raw_enum", "core": True, "L": 6 if tier == "quick" else 7, "part": i, "nparts": 16}
             for i in range(16)]  # fmt: skip
     # what is stepped is the pickle the caller pointed at, whatever object carries the bytes
     out += [{"kind": "carriers"}]
